@@ -268,8 +268,8 @@ Definition canon_events (l : list span) : res (list sx) :=
 Definition union_events (a b : set) : res (list sx) := canon_events (set_span a ++ set_span b).
 Definition inter_events (a b : set) : res (list sx) :=
   match inter_rows (set_span a) (set_span b) with
-  | Ok out => canon_events out
-  | Err _ => Ok []
+  | Ok out => evs <- canon_events out;; Ok (open_units (set_span a ++ set_span b) ++ evs)
+  | Err _ => Ok (open_units (set_span a ++ set_span b))
   | Panic p => Panic p
   | OutOfFuel => OutOfFuel
   end.
@@ -335,22 +335,49 @@ Definition k_setrt_d : bytes := [115;101;116;114;116;95;100]%N.
 Definition k_setdiag_d : bytes := [115;101;116;100;105;97;103;95;100]%N.
 
 (* the body of setop once the two sets are known *)
+(* the public route of a result: ParseSetConstraint(result.String()).MatchVersionPrerelease *)
+Definition pub_of (tbl : table) (sys : system) (o : option set) : res (option (option constraint)) :=
+  match o with
+  | None => Ok None
+  | Some st =>
+      str <- set_string st;;
+      match parse_set_constraint (pv_of tbl) sys str with
+      | Ok c => Ok (Some (Some c))
+      | Err _ => Ok (Some None)
+      | Panic p => Panic p
+      | OutOfFuel => OutOfFuel
+      end
+  end.
+
+Definition pub_mem (p : option (option constraint)) (v : version) : res sx :=
+  match p with
+  | None => Ok (SI (-1))
+  | Some None => Ok (SI (-2))
+  | Some (Some c) => b0 <- match_version_prerelease c v;; Ok (sx_bool b0)
+  end.
+
 Definition setop_body (tbl : table) (sys : system) (sa sb : set) (probes : list sx) : res sx :=
   u <- op_result (set_union sa sb);;
   i <- op_result (set_intersect sa sb);;
   u' <- op_result (set_union sb sa);;
   i' <- op_result (set_intersect sb sa);;
+  au <- op_result (set_union sa sa);;
+  ai <- op_result (set_intersect sa sa);;
+  pu <- pub_of tbl sys u;; pi <- pub_of tbl sys i;; pu' <- pub_of tbl sys u';; pi' <- pub_of tbl sys i';;
   ps <- parse_probes tbl sys probes;;
   rows <- map_res (fun o => match o with
                             | None => Ok (SL [SB s_verr])
                             | Some v =>
                                 r <- map_res (fun x => e <- mem x v false;; n <- mem x v true;; Ok [e; n])
                                              [Some sa; Some sb; u; i; u'; i'];;
-                                Ok (SL (concat r))
+                                p <- map_res (fun x => pub_mem x v) [pu; pi; pu'; pi'];;
+                                r2 <- map_res (fun x => e <- mem x v false;; n <- mem x v true;; Ok [e; n]) [au; ai];;
+                                Ok (SL (concat r ++ p ++ concat r2))
                             end) ps;;
   ia <- sx_set_info (Some sa);; ib <- sx_set_info (Some sb);;
   iu <- sx_set_info u;; ii <- sx_set_info i;; iu' <- sx_set_info u';; ii' <- sx_set_info i';;
-  Ok (SL [SB sym_ok; ia; ib; iu; ii; iu'; ii'; SL rows]).
+  iau <- sx_set_info au;; iai <- sx_set_info ai;;
+  Ok (SL [SB sym_ok; ia; ib; iu; ii; iu'; ii'; SL rows; SL [SI 1; SI 1; SI 1; SI 1]; iau; iai]).
 
 (* the body of setrt once the set is known: only prerelease-inclusive matching is observed *)
 Definition setrt_body (tbl : table) (sys : system) (st : set) (probes : list sx) : res sx :=
@@ -467,23 +494,7 @@ Definition run_Constraint (kind : bytes) (a : sx) : option sx :=
                   if negb (is_ascii_edge ta && is_ascii_edge tb_) then oom else
                   sx_out (ca <- parse_constraint (pv_of tbl) sys ta;;
                           cb <- parse_constraint (pv_of tbl) sys tb_;;
-                          let sa := c_set ca in
-                          let sb := c_set cb in
-                          u <- op_result (set_union sa sb);;
-                          i <- op_result (set_intersect sa sb);;
-                          u' <- op_result (set_union sb sa);;
-                          i' <- op_result (set_intersect sb sa);;
-                          ps <- parse_probes tbl sys probes;;
-                          rows <- map_res (fun o => match o with
-                                                    | None => Ok (SL [SB s_verr])
-                                                    | Some v =>
-                                                        r <- map_res (fun x => e <- mem x v false;; n <- mem x v true;; Ok [e; n])
-                                                                     [Some sa; Some sb; u; i; u'; i'];;
-                                                        Ok (SL (concat r))
-                                                    end) ps;;
-                          ia <- sx_set_info (Some sa);; ib <- sx_set_info (Some sb);;
-                          iu <- sx_set_info u;; ii <- sx_set_info i;; iu' <- sx_set_info u';; ii' <- sx_set_info i';;
-                          Ok (SL [SB sym_ok; ia; ib; iu; ii; iu'; ii'; SL rows]))
+                          setop_body tbl sys (c_set ca) (c_set cb) probes)
               | _, _ => badcase
               end
           | _ => badcase end)
@@ -545,9 +556,11 @@ Definition run_Constraint (kind : bytes) (a : sx) : option sx :=
               | Some sa, Some sb =>
                   sx_out (eu <- union_events sa sb;; ei <- inter_events sa sb;;
                           eu' <- union_events sb sa;; ei' <- inter_events sb sa;;
+                          eau <- union_events sa sa;; eai <- inter_events sa sa;;
                           Ok (SL [SB sym_ok; SL eu; SL ei; SL eu'; SL ei';
                                   sx_bool (union_region sa sb && union_region sb sa);
-                                  sx_bool (inter_region sa sb && inter_region sb sa)]))
+                                  sx_bool (inter_region sa sb && inter_region sb sa);
+                                  SL eau; SL eai]))
               | _, _ => badcase
               end
           | _ => badcase end)
